@@ -83,6 +83,19 @@ pub fn run(tier: Tier) -> Report {
                     )),
                 }
             }
+            // ... and with numbered texts: every comment survives *in source order*
+            if keepers.len() >= 2 {
+                let r = render(&pr.toks, Layout::Spaces, &keepers, &|g| format!(" k{}", g));
+                evals.fetch_add(1, Ordering::Relaxed);
+                match eval_text(&r.text) {
+                    Ok(()) => out.push(("safe-gaps-at-once".into(), false, None)),
+                    Err((kind, detail)) => out.push((
+                        "safe-gaps-at-once".into(),
+                        true,
+                        Some(Failure { key: format!("comment-{}:safe-gaps-at-once", kind), case: json!({"text": r.text, "family": it.family, "gaps": keepers}), detail }),
+                    )),
+                }
+            }
             // all gaps at once
             let all: Vec<usize> = (0..=n).collect();
             let r = render(&pr.toks, Layout::Minimal, &all, &|g| format!(" c{}", g));
